@@ -127,3 +127,25 @@ def check_not_normalised(ctx: Ctx, rule: str):
                 first_print = n.lineno if first_print is None else min(first_print, n.lineno)
     ok = simp_line is not None and first_print is not None and simp_line < first_print
     ctx.check(ok, rule, f.key("simplify-before-print"), "the Piecewise is normalised by sympy.simplify before any branch or condition is printed", "base._print_Piecewise no longer passes the Piecewise through sympy.simplify before printing: a condition Not(And(..)) would reach the python printer's scalar-only `not (...)` (and the .ode writer's `~(...)`)", f.where())
+
+
+# gotranx print methods that were read when the rules were written.  An override for any *other* producible class has
+# unknown meaning and is reported (the rules below check the structure of the listed ones).
+VETTED_OVERRIDES = {
+    "numpy": {"Float", "Piecewise", "And", "Or", "Equality", "sign"},
+    "jax": {"Float", "Piecewise", "And", "Or", "Equality", "sign", "Assignment"},
+    "c": {"Float", "Piecewise", "Mod"},
+    "ode": {"StrictLessThan", "LessThan", "StrictGreaterThan", "GreaterThan", "Equality", "Unequality", "And", "Or", "Not", "BooleanTrue", "BooleanFalse", "Piecewise", "Exp1"},
+}
+
+
+def check_no_unvetted_override(ctx: Ctx, rule: str, printer: str, skip=()):
+    M = model(ctx)
+    for mod, name in pm.P_CLASSES:
+        if name in skip:
+            continue
+        r = M.resolve(printer, mod, name)
+        if r.is_gotranx and name not in VETTED_OVERRIDES[printer]:
+            ctx.fail(rule, f"{printer}-printer::{name}::unvetted-override", f"{printer} printer: {name} is now printed by {r}, an override that was not there when the printer was vetted; what it emits for {name} is not known to preserve the value (e.g. fmod instead of %, x*x without parentheses)", r.func.where())
+        elif r.is_gotranx:
+            ctx.ok(rule, f"{printer}-printer::{name}::override", f"{r} (read and checked structurally)", r.func.where(), nontrivial=False)
